@@ -30,7 +30,12 @@ FLAGS = [(s, a) for s in (True, False) for a in (False, True)]
 def families(tier):
     D = 1200
     fams = []
-    fams.append(("nest-branch", [("d=%d" % d, "C(" * d + "C" + ")C" * d) for d in range(1, D + 1)]))
+    if tier == "thorough":
+        depths = list(range(1, D + 1))
+    else:
+        # quick: every depth up to 64, every depth across the recursion-limit cliff (900..1040), a stride elsewhere
+        depths = sorted(set(range(1, 65)) | set(range(64, D + 1, 16)) | set(range(900, 1041)) | {D})
+    fams.append(("nest-branch", [("d=%d" % d, "C(" * d + "C" + ")C" * d) for d in depths]))
     fams.append(("nest-branch-aromatic", [("d=%d" % d, "c1ccccc1" + "(c1ccccc1" * d + ")" * d) for d in range(1, D + 1, 11)]))
     fams.append(("nest-rings", [("d=%d" % d, "".join("C%d" % (k % 9 + 1) if k < 9 else "C%%%d" % (k + 1) for k in range(min(d, 90)))
                                  + "C" + "".join("C%d" % (k % 9 + 1) if k < 9 else "C%%%d" % (k + 1) for k in reversed(range(min(d, 90)))))
@@ -63,12 +68,16 @@ def plan(tier, seed):
     for fi, (fname, members) in enumerate(families(tier)):
         name = "family/" + fname
         scopes.append({"name": name, "members": len(members), "range": "%s .. %s" % (members[0][0], members[-1][0])})
-        for k in range(0, len(members), 40):
-            tasks.append((name, ("family", fi, k, k + 40, tier)))
-    return {"scopes": scopes, "tasks": tasks, "bounds": {"nesting_max": 1200}}
+        for k in range(0, len(members), 8):
+            tasks.append((name, ("family", fi, k, k + 8, tier)))
+    return {"scopes": scopes, "tasks": tasks, "bounds": {"nesting_max": 1200},
+            "weight": lambda t: (2 if t[1][0] == "family" and t[1][1] < 2 else 0)}
 
 
 _SF = None
+
+
+_SHARD_TIMER = [False]   # short strings of a shard share one watchdog (600 s per shard) instead of one timer per call
 
 
 class Timeout(BaseException):
@@ -95,12 +104,15 @@ def innermost_selfies_frame(e):
 
 def call(s, strict, attribute):
     budget = 20 + len(s) / 100.0
-    signal.setitimer(signal.ITIMER_REAL, budget)
+    timed = len(s) > 200 or not _SHARD_TIMER[0]
+    if timed:
+        signal.setitimer(signal.ITIMER_REAL, budget)
     try:
         try:
             res = _SF.encoder(s, strict=strict, attribute=attribute)
         finally:
-            signal.setitimer(signal.ITIMER_REAL, 0)
+            if timed:
+                signal.setitimer(signal.ITIMER_REAL, 0)
     except _SF.EncoderError:
         return "EncoderError", None, None
     except Timeout:
@@ -141,8 +153,17 @@ def run(task):
     if arg[0] == "strings":
         _, an, L, sh = arg
         w = None
-        for w in E1.nodes(ALPH[an], L, sh):
-            check("".join(w), r)
+        signal.setitimer(signal.ITIMER_REAL, 600)
+        _SHARD_TIMER[0] = True
+        try:
+            for w in E1.nodes(ALPH[an], L, sh):
+                check("".join(w), r)
+        except Timeout:
+            r.violation("timeout", {"input": "".join(w), "strict": None, "attribute": None},
+                        "shard watchdog (600 s) expired while encoding %r" % ("".join(w),))
+        finally:
+            signal.setitimer(signal.ITIMER_REAL, 0)
+            _SHARD_TIMER[0] = False
         if w is not None:
             r.sample({"scope": scope, "input": "".join(w)}, 1)
     else:
